@@ -17,7 +17,7 @@ fn spec_cmp(ida: u32, ma: u32, idb: u32, mb: u32) -> Ordering {
     if ma > mb { Ordering::Less } else if ma < mb { Ordering::Greater } else { ida.cmp(&idb) }
 }
 
-//# id=obm.cmp_is_mask_desc_then_id props=C09 kind=complete pair=iptable.Obm.cmp.safety,iptable.Obm.partial_cmp.safety
+//# id=obm.cmp_is_mask_desc_then_id fns=Obm::cmp+Obm::partial_cmp props=C09 kind=complete pair=iptable.Obm.cmp.safety,iptable.Obm.partial_cmp.safety
 #[cfg_attr(kani, kani::proof)]
 #[cfg_attr(vx_replay, test)]
 fn h_obm_cmp() {
